@@ -8,14 +8,15 @@ MANIFEST = dict(
     category="proof",
     text="Contracts on the real sample conversion helpers opn2_cvtS16/U16/S8/U8/S24/U24/S32/U32/Real<float|double> (extracted from opnmidi_private.hpp): each equals the documented formula for all 2^32 inputs, no signed overflow. Contract on the real SendStereoAudio (extracted): refuses exactly the undocumented type/container pairs, otherwise performs exactly one copy of min(requested - position, 2*available)/2 frames starting at frame position/2 with the requested stride into containers of the requested size; the six CopySamples instantiations are replaced by contracts that check those arguments.",
     design_ref="DESIGN.md C13",
-    level_note="opn2_generateFormat and opn2_playFormat (extracted, loop contract on the period loop, 1..4 chips): if the call returns, generateFormat reports the request rounded down to even (0 for negative counts, NULL device or a refused format) and playFormat an even count not above that, short only when the sequencer reported the end of the song (ghost) or the format was refused; the reported count is exactly twice the frames handed to SendStereoAudio, each period is stored directly behind the previous one, every SendStereoAudio call satisfies the precondition the SendStereoAudio group assumes, at most 512 frames go through the 1024-element mix buffer, the timing state (carry, delay, skip count) keeps its invariant - PARTIAL correctness, termination not proved. Not covered: the per-byte frame of CopySamplesRaw/Transformed themselves (argument-checking contracts only), opn2_generate/opn2_play wrappers (one call each), the chips' output values. Trusted: extraction rules incl. template monomorphisation (R6), CBMC float semantics for the two Real conversions and the period arithmetic, memset model.",
+    level_note="opn2_generateFormat and opn2_playFormat (extracted, loop contract on the period loop, 1..4 chips): if the call returns, generateFormat reports the request rounded down to even (0 for negative counts, NULL device or a refused format) and playFormat an even count not above that, short only when the sequencer reported the end of the song (ghost) or the format was refused; the reported count is exactly twice the frames handed to SendStereoAudio, each period is stored directly behind the previous one, every SendStereoAudio call satisfies the precondition the SendStereoAudio group assumes, at most 512 frames go through the 1024-element mix buffer, the timing state (carry, delay, skip count) keeps its invariant - PARTIAL correctness, termination not proved. CopySamplesRaw<int32_t> and CopySamplesTransformed<int8_t|int16_t|int32_t|float|double> (extracted, R6; loop contracts; planar and interleaved layouts): for every frame count up to 512, every 32-bit stride and offset, a ghost frame holds (Dst)transform(src[2g]) / (Dst)transform(src[2g+1]) at left/right + g*sampleOffset and a ghost guard byte in front of, between or behind the containers keeps its value; the loop terminates. The address product i*sampleOffset is outlined (R14) and used through a contract that a separate lemma group discharges with cvc5 (bit-vectors as integers). Caller buffers up to 64 KiB in the quick tier, 4 TiB in the thorough tier. Not covered: opn2_generate/opn2_play wrappers (one call each), the chips' output values. Trusted: extraction rules incl. template monomorphisation (R6), CBMC float semantics for the two Real conversions and the period arithmetic, memset model.",
     technique="CBMC code contracts (DFCC) with loop contracts on mechanically extracted functions")
-TRUSTED = ["extraction rules of vlib/cxx2c.py (R1, R2, R6 template monomorphisation)", "assumed contracts at the call sites of the CopySamples instantiations (argument check + ghost record); their bodies are not under proof"]
+TRUSTED = ["extraction rules of vlib/cxx2c.py (R1, R2, R6 template monomorphisation, R13 loop-marker relocation, R14 multiplication outlining)", "SendStereoAudio group: contracts at the call sites of the CopySamples instantiations (argument check + ghost record); the bodies are proved in the copy_* groups", "cvc5 1.0.3 --solve-bv-as-int=sum for the address-product lemma"]
 ASSUMPTIONS = ["SendStereoAudio group: called with an even non-negative request, an even position inside it and at most 512 generated frames - no longer assumed: it is the REQUIRES of the SendStereoAudio stub that both callers (generate_format_contract, play_format_contract) are checked against at the call site",
                "opn2_generateFormat / opn2_playFormat: PARTIAL correctness (termination of the period loop is not proved: progress depends on floating-point accumulation and on the sequencer)",
                "generate/play groups: 1..4 chips (the property's quantifier); the chip loop is unwound with unwinding assertions for that bound",
                "generate/play groups: setup invariant assumed at entry (1 <= PCM_RATE <= 1e6, 0 < maxdelay <= 1000 s, carry in [0,1), 0 <= delay <= 1e9 s, |tick_skip_samples_delay| <= 2^32) and re-established at exit",
                "play group: ASSUMED contracts of the sequencer - positionAtEnd() returns any answer, OPNMIDIplay::Tick() returns a finite delay in [0, 1e9] s",
+               "copy groups: the transform is an arbitrary deterministic integer-valued function (uninterpreted function); hypothesis token g_products_ok (the ghost products are the products) is the precondition of the outlined multiplication and is given its definition only in copy_address_product_lemma",
                "generate/play groups: TRUSTED memset model (checks the cleared range is inside m_outBuf, then forgets the buffer contents); chip emulators by contract (write at most 512 frames into m_outBuf)"]
 P = "src/opnmidi_private.hpp"
 CVT = ["opn2_cvtS16", "opn2_cvtS8", "opn2_cvtS24", "opn2_cvtS32", "opn2_cvtU16", "opn2_cvtU8", "opn2_cvtU24", "opn2_cvtU32"]
